@@ -21,7 +21,7 @@ INITIAL = [
     ({"a": BODY2.encode(), "b": BODY1.encode()}, "b"),
     ({"a": BODY3.encode("utf-8")}, None),
 ]
-CUTS = [1, 2, 7]
+CUTS = [1, 7, "cr1", "crl"]  # thorough adds 2 and -1 (see run)
 
 
 def norm_lines(b):
@@ -101,13 +101,35 @@ class LoggingServer(refms.RefServer):
         self.status_log.append(code)
 
 
-def run_history(init_i, version, hist, prefix, seg_choice):
+SHADOW_STORE = {"z": b"# shadow\r\nstop;\r\n", "a": b"discard;\r\n"}
+
+
+def shadow_step(sh):
+    """a second Client object with its own server in the same process, used between the steps of the history under test:
+    nothing the first client does may show in what the second one reports (and the other way round)"""
+    s2, srv2 = sh
+    o = s2.call("listscripts")
+    if not (o.kind == "ret" and o.value == ("z", ["a"])):
+        return "the other client's listscripts gave %s" % o.brief()
+    o = s2.call("getscript", "z")
+    if not (o.kind == "ret" and isinstance(o.value, str) and norm_lines(o.value) == norm_lines(SHADOW_STORE["z"])):
+        return "the other client's getscript gave %s" % o.brief()
+    if srv2.violations:
+        return "the other client's server saw %s" % srv2.violations[0]
+    return None
+
+
+def run_history(init_i, version, hist, prefix, seg_choice, shadow=False):
     store, active = INITIAL[init_i]
     ch = refms.Choices(prefix)
     srv = LoggingServer(ch=ch, store=store, active=active, version=version)
     s = wire.open_session(srv)
+    sh = None
+    if shadow:
+        srv2 = refms.RefServer(store=dict(SHADOW_STORE), active="z", version=True)
+        sh = (wire.open_session(srv2, login="other", password="secret2"), srv2)
     if seg_choice:
-        s.cur_socket().set_seg(("choice", CUTS))
+        s.cur_socket().set_seg(("choice", CUTS + ([2, -1] if seg_choice is not True and seg_choice >= 2 else [])))
     bad = None
     step = -1
     for step, ev in enumerate(hist):
@@ -135,6 +157,12 @@ def run_history(init_i, version, hist, prefix, seg_choice):
             why = implied_state(ev, o, srv)
             if why:
                 bad = ("state", why)
+        if bad is None and isinstance(o.value, tuple) and len(o.value) == 2 and isinstance(o.value[1], list):
+            o.value[1].append("SCRIBBLE")  # what a call returned belongs to the caller
+        if bad is None and sh is not None:
+            why = shadow_step(sh)
+            if why:
+                bad = ("other-client", why)
         if bad is None and o.leftover:
             bad = ("unread-bytes", "%d bytes left unread after %s" % (o.leftover, ev[0]))
         if bad is None and srv.violations:
@@ -152,7 +180,7 @@ def explore_history(init_i, version, hist, bound):
     final = {}
 
     def run(prefix):
-        bad, step, srv, ch = run_history(init_i, version, hist, prefix, seg_choice=bound > 0)
+        bad, step, srv, ch = run_history(init_i, version, hist, prefix, seg_choice=bound, shadow=not prefix)
         if not prefix:
             final["state"] = (tuple((n, srv.store[n]) for n in sorted(srv.store)), srv.active)
             final["bad"] = bad
@@ -197,7 +225,7 @@ def task(t):
                     viols.append({"property": "C15", "engine": "wire",
                                   "signature": ["C15", ev_label(h2[step]).split("(")[0] + ("" if version or h2[step][0] != "renamescript" else "-emulated"), dev_l, bad[0]],
                                   "what": "history %s (initial store %d, VERSION=%s), deviations %r: %s" % (" ; ".join(hist_l), init_i, version, devs, bad[1]),
-                                  "case": {"init": init_i, "version": version, "history": [list(e) for e in h2[:step + 1]], "choices": choices},
+                                  "case": {"bound": bound, "init": init_i, "version": version, "history": [list(e) for e in h2[:step + 1]], "choices": choices},
                                   "witness": "init=%d version=%s %s deviations=%r" % (init_i, version, " ; ".join(hist_l), devs), "observed": bad[1][:160]})
                 key = final.get("state")
                 distinct.add((key, ev[0]))
@@ -238,7 +266,7 @@ def run(tier, seed):
 def replay(payload):
     c = payload["case"]
     hist = tuple(tuple(e) for e in c["history"])
-    bad, step, srv, ch = run_history(c["init"], c["version"], hist, c["choices"], seg_choice=any(c["choices"]) or True)
+    bad, step, srv, ch = run_history(c["init"], c["version"], hist, c["choices"], seg_choice=c.get("bound", 1), shadow=not any(c["choices"]))
     if bad:
         sig = list(payload["signature"])
         sig[3] = bad[0]
